@@ -253,3 +253,13 @@ package resolve
 //@     invariant -1 <= latestIdx && latestIdx <= rangeidx
 //@     invariant imp(latestIdx >= 0, latestIsPrerelease == (vers[vs[latestIdx].VersionKey] != nil && vers[vs[latestIdx].VersionKey].IsPrerelease()))
 //@   property C12
+
+// ---------------------------------------------------------------------------
+// C18 (partial): an aliased npm dependency "npm:<name>@<range>" becomes a
+// requirement on <name> — everything before the LAST '@', so that scoped
+// names keep their leading '@' — with version <range>; other requirements keep
+// the declared name and requirement.
+//@ func flattenNPMDeps$1
+//@   assert at "flattened = append(flattened, RequirementVersion{": imp(ok && strlastindex(r, "@") >= 0, name == r[:strlastindex(r, "@")] && req == r[strlastindex(r, "@")+1:])
+//@   assert at "flattened = append(flattened, RequirementVersion{": imp(!ok, name == d.Name && req == d.Requirement)
+//@   property C18
